@@ -2,6 +2,7 @@
   C17 — every rejection is explained by well-formed, correctly located errors.
 -/
 import VM.Properties.C01
+import VM.Proofs.Located
 namespace VM.C17
 open VM Impl Spec
 
@@ -28,5 +29,26 @@ theorem oneShot_lists_exactly (r : Res) :
     split at h
     · cases h
     · cases h; exact ⟨rfl, rfl⟩
+
+/-- **Every error is located under the caller's root path.** For every schema (no vocabulary condition), every
+    instance, every regexp engine and format registry, every setting of the deviation switches and every amount of
+    `$ref` fuel, with the plain options: each error the model of the validator tree reports carries a name that is the
+    root path it was given, extended by the member names and indices walked through (`pre root name`) — or no name at
+    all (the two messages without a location: "array doesn't allow for additional items" and the model's fuel marker).
+    With nesting: a failure below member `k` of an object at `p` is reported under `p.k`, below element `i` of a tuple
+    under `p.i`; the lemmas per sub-validator are in VM/Proofs/Located.lean. -/
+theorem C17_errors_under_root (cfg : Cfg) (O : Oracles) (defs : String → Option Schema) (n : Nat) (s : Schema)
+    (root : String) (v : JVal) :
+    ∀ m ∈ (validateF cfg {} O defs n s root v).errors, pre root m.name ∨ m.name = "" :=
+  validateF_loc cfg O defs n s root v
+
+/-- a missing required member is reported *at the member's own path* under the object that lacks it -/
+theorem C17_required_located :
+    (validateF Cfg.asIs {} C01.O0 C01.noDefs 0
+        (.mk { required := ["a"] } none [] none [] [] none [] [] [] [] none) "doc.x" (.obj [])).errors.map (·.name)
+      = ["doc.x.a"] := by decide
+
+/-- non-vacuity: a nested failure and where it is reported -/
+example : ((validateF Cfg.asIs {} C01.O0 C01.noDefs 0 C01.sDemo "doc" (.obj [("a", .num 7)])).errors.map (·.name)) = ["doc.a"] := by decide
 
 end VM.C17
